@@ -71,3 +71,19 @@ Print Assumptions c16_poll_with_local_progress.
 Theorem c16_poll_illegal_is_final : forall its s, ls_illegal s = true -> PollLocal.lrun s its = s.
 Proof. exact illegal_is_final. Qed.
 Print Assumptions c16_poll_illegal_is_final.
+
+(* ARBITRARY responses next to arbitrary local progress: the cursor advances exactly by the longest sequential valid
+   prefix; the verdict is illegal exactly when some certificate lies beyond that prefix. *)
+Theorem c16_poll_any_response_valid_prefix : forall its s, ls_illegal s = false ->
+  ls_next (PollLocal.lrun s its) = ls_next s + valid_prefix (ls_next s) its /\
+  ls_received (PollLocal.lrun s its) = ls_received s + valid_prefix (ls_next s) its /\
+  ls_illegal (PollLocal.lrun s its) = negb (all_valid (ls_next s) its) /\
+  ls_latest s <= ls_latest (PollLocal.lrun s its).
+Proof. exact any_response_advances_by_valid_prefix. Qed.
+Print Assumptions c16_poll_any_response_valid_prefix.
+
+(* non-vacuity: two valid certificates around a local put, then a forged one *)
+Example c16_poll_local_example :
+  let s := PollLocal.lrun (mkLS 3 2 0 0 false) [PCert 3 true; PLocal; PCert 4 true; PCert 5 false; PCert 6 true] in
+  (ls_next s, ls_latest s, ls_received s, ls_new s, ls_illegal s) = (5, 4, 2, 1, true).
+Proof. vm_compute. reflexivity. Qed.
